@@ -33,14 +33,14 @@ def cases(desc):
         yield gen_case(rng)
 
 
-def pair_labels(rng, kind, pattern):
+def pair_labels(rng, kind, pattern, off=0):
     """two label lists for one shared dimension"""
     na = rng.randint(1, 4)
     nb = rng.randint(1, 4)
     k2 = kind
     if kind == 'if':
         kind, k2 = rng.choice([('i', 'f'), ('f', 'i')])
-    pool = gen.labels(rng, 8, 'i' if 'i' in (kind, k2) and kind != k2 else kind, 'inc')
+    pool = gen.labels(rng, 8, 'i' if 'i' in (kind, k2) and kind != k2 else kind, 'inc', off=off)
     if pattern in ('equal', 'permuted'):
         la = rng.sample(pool, na)
         lb = list(la)
@@ -85,6 +85,7 @@ def gen_pair(rng, small=False, dtypes=None):
         rest = [d for d in db_ if d not in da_]
         db_ = shared + rest[:max(0, 4 - len(shared))]
         rng.shuffle(db_)
+    off = gen.BIG if rng.random() < 0.15 else 0     # labels beyond 2**24, spacing tiny relative to their size
     sa = {"dims": da_, "labels": [None] * len(da_), "kinds": [None] * len(da_)}
     sb = {"dims": db_, "labels": [None] * len(db_), "kinds": [None] * len(db_)}
     pats = []
@@ -93,7 +94,7 @@ def gen_pair(rng, small=False, dtypes=None):
         if ina and inb:
             kind = rng.choice(['i', 'f', 's', 'i', 'f', 'if'])
             pattern = rng.choice(['equal', 'overlap', 'nested', 'disjoint', 'permuted'])
-            (la, ka, oa), (lb, kb, ob) = pair_labels(rng, kind, pattern)
+            (la, ka, oa), (lb, kb, ob) = pair_labels(rng, kind, pattern, off=off)
             sa["labels"][da_.index(d)], sa["kinds"][da_.index(d)] = la, ka
             sb["labels"][db_.index(d)], sb["kinds"][db_.index(d)] = lb, kb
             pats.append((kind, pattern, oa, ob))
@@ -101,7 +102,7 @@ def gen_pair(rng, small=False, dtypes=None):
             s = sa if ina else sb
             dd = da_ if ina else db_
             k = rng.choice('ifs')
-            s["labels"][dd.index(d)] = gen.labels(rng, rng.randint(1, 4), k, rng.choice(['inc', 'dec', 'shuf']))
+            s["labels"][dd.index(d)] = gen.labels(rng, rng.randint(1, 4), k, rng.choice(['inc', 'dec', 'shuf']), off=off)
             s["kinds"][dd.index(d)] = k
     dta, dtb = dtypes or (rng.choice('fi'), rng.choice('fi'))
     hi = 10 if small else 4000
